@@ -9,13 +9,14 @@ for f in sys.argv[1:]:
             if len(p) == 3 and p[0].startswith('B'):
                 res.setdefault(p[0], {})[p[1]] = p[2]
 notes = {
+ 'B9_2': 'NOT property-preserving (true positive): the error renderer now pads with `{:width$}`; Rust limits a formatting width to u16, so rendering an error whose column is >= 65536 panics ("Formatting argument out of range"). C05 met it on its 128 KiB one-line documents (a rejected 65535-segment header); rendering an error must never panic (C04 / C15).',
  'B5_4': 'NOT property-preserving (true positive): keeping a re-opened implicit table in its slot also keeps the FIRST spelling of its key, so `[a.b]` / `[\\ta]` prints `[a]` - an unedited document without dotted keys no longer prints back byte-for-byte (C03). On the unchanged tree this input round-trips; the alarm is a different input than the recorded finding KF-C03-1 covers, and is reported as such.',
  'B1_2': 'first pass: false alarm of C05 (recognised the recursion-limit error by its wording, then by the whole message); corrected - the cause line of what the library says for a reference document is used; silent since',
 }
 out = ['# Property-preserving changes: every quick check against each (expected: silence)\n',
        'Produced by `tools/benign_matrix.sh` (scratch copy of /repo with the patch applied, all 20 quick checks) and `tools/benign_results.py`.',
        'Each change was written by a sub-agent that saw only the property texts; each compiles and passes the 2144 baseline tests.',
-       'B1-B4: first round (run twice, before and after the checks were strengthened by seed rounds 2-3); B5-B8: second round.\n',
+       'B1-B4: first round; B5-B8: second round; B9-B12: third round (after seed round 5). The listed result of every change is from a run against the final checks.\n',
        '| change | what | alarms in the last run | note |', '|---|---|---|---|']
 for n in sorted(res):
     mp = f'/verif/benign/{n}/meta.json'
